@@ -349,7 +349,7 @@ def run(ctx: Context, R: Reporter):
 
 
 def variants():
-    from ..variants import Variant, alpha_rename, delete_stmt, insert_after, insert_before, replace_expr, replace_stmt
+    from ..variants import Variant, alpha_rename, chain, delete_stmt, insert_after, insert_before, replace_expr, replace_if, replace_stmt
 
     core = "tempest/core.py"
     mc = "tempest/mcmc.py"
@@ -357,7 +357,7 @@ def variants():
     return [
         Variant("a-imap-unordered", "bad", replace_expr(core, "SamplerCore._get_distribute_func", "self.config.pool.map", "self.config.pool.imap_unordered"), ["C13.a"], quick=True),
         Variant("a-pool-imap-unordered", "bad", replace_expr(core, "SamplerCore._get_distribute_func", "pool.map", "pool.imap_unordered"), ["C13.a"]),
-        Variant("b-int-fallthrough", "bad", replace_stmt(core, "SamplerCore._get_distribute_func", "if self.config.pool <= 1:\n    return map", "pass"), ["C13.b"], quick=True),
+        Variant("b-int-fallthrough", "bad", chain(replace_if(core, "SamplerCore._get_distribute_func", "self.config.pool <= 1", "pass"), replace_expr(core, "SamplerCore._get_distribute_func", "isinstance(self.config.pool, int)", "isinstance(self.config.pool, int) and self.config.pool > 1")), ["C13.b"], quick=True),
         Variant("c-probe-call", "bad", insert_before(core, "SamplerCore._log_like", "results = list(map(self.config.log_likelihood, x))", "probe = self.config.log_likelihood(x[0])"), ["C13.c"], quick=True),
         Variant("c-count-on-one-branch", "bad", replace_stmt(mc, "BaseMCMCRunner._evaluate_likelihood", "self.n_calls += self.n_walkers", "if self.blobs is None:\n    self.n_calls += self.n_walkers"), ["C13.c"], quick=True),
         Variant("c-count-one", "bad", replace_stmt(mc, "BaseMCMCRunner._evaluate_likelihood", "self.n_calls += self.n_walkers", "self.n_calls += 1"), ["C13.c"]),
